@@ -1205,39 +1205,52 @@ Proof.
   destruct b as [|c b']; [now elim NE|]. apply ballot_text_no_break.
 Qed.
 
-(* the lines of the written file, each followed by the same whitespace (a newline for readlines, nothing for
-   splitlines), are parsed back to the sorted view *)
-Theorem roundtrip_lines w i : forallb is_space w = true -> wf_cat i ->
-  cat_parse false false (meta0 (lit "cat")) (map (fun l => l ++ w) (file_lines i)) = Ok (sorted_view i).
+(* the header loop on the lines of a written file (each followed by the same whitespace: a newline for readlines,
+   nothing for splitlines): it rebuilds everything but the ballots and stops at the first ballot line *)
+Lemma header_loop_file w i : forallb is_space w = true -> wf_cat i ->
+  header_loop false [] start_inst (map (fun l => l ++ w) (file_lines i))
+  = Ok (set_c_ballots i [] [], map (fun b => ballot_text (c_mult i) b ++ w) (sorted_prefs i)).
 Proof.
   intros Hw W. unfold file_lines. rewrite map_app, map_map.
   set (mu := c_mult i). remember (sorted_prefs i) as S eqn:ES.
-  unfold cat_parse. change (teqb (data_type (meta0 (lit "cat"))) (lit "cat")) with true. cbv iota.
-  unfold cat_parse_body. fold start_inst.
-  (* facts about the sorted ballot list *)
   assert (PS : Permutation (c_prefs i) S) by (rewrite ES; apply sorted_prefs_perm).
   assert (NES : Forall (fun b => b <> []) S).
   { eapply Permutation_Forall; [exact PS|now apply wf_ballots_nonempty]. }
-  assert (NDS : NoDup S) by (eapply Permutation_NoDup; [exact PS|apply (wf_nodup i W)]).
   destruct S as [|s S'].
   { exfalso. apply (wf_some_ballot i W). now apply Permutation_nil, Permutation_sym. }
-  (* header *)
   rewrite (header_loop_app false [] _ start_inst (set_c_ballots i [] [])).
   2:{ discriminate. }
   2:{ apply Forall_forall. intros l Hl. apply in_map_iff in Hl as [l0 [<- Hl0]].
       pose proof (header_lines_hash i) as F. rewrite Forall_forall in F. destruct (F l0 Hl0) as [r ->].
       now exists (r ++ w). }
   2:{ rewrite fold_header_ws by exact Hw. now apply fold_header_all. }
-  (* first ballot line stops the header loop *)
   inversion NES as [|? ? Hs _]; subst. destruct s as [|c s']; [now elim Hs|].
-  cbn [map]. rewrite header_loop_stop by (now apply ballot_text_not_hash).
-  cbn [rbind].
-  (* ballots *)
-  change ((ballot_text mu (c :: s') ++ w) :: map (fun b => ballot_text mu b ++ w) S')
-    with (map (fun b => ballot_text mu b ++ w) ((c :: s') :: S')).
-  rewrite ballot_loop_lines; [|exact Hw|exact NES|exact NDS|intros b _ []].
-  cbn [rmap]. f_equal. unfold sorted_view. fold mu. fold (retable mu (sorted_prefs i)). rewrite <- ES.
-  now destruct i.
+  cbn [map]. now rewrite header_loop_stop by (now apply ballot_text_not_hash).
+Qed.
+
+Theorem roundtrip_lines w i : forallb is_space w = true -> wf_cat i ->
+  cat_parse false false (meta0 (lit "cat")) (map (fun l => l ++ w) (file_lines i)) = Ok (sorted_view i).
+Proof.
+  intros Hw W.
+  unfold cat_parse. change (teqb (data_type (meta0 (lit "cat"))) (lit "cat")) with true. cbv iota.
+  unfold cat_parse_body. fold start_inst. rewrite header_loop_file by assumption. cbn [rbind].
+  assert (PS : Permutation (c_prefs i) (sorted_prefs i)) by apply sorted_prefs_perm.
+  assert (NES : Forall (fun b => b <> []) (sorted_prefs i)).
+  { eapply Permutation_Forall; [exact PS|now apply wf_ballots_nonempty]. }
+  assert (NDS : NoDup (sorted_prefs i)) by (eapply Permutation_NoDup; [exact PS|apply (wf_nodup i W)]).
+  assert (FR : forall b, In b (sorted_prefs i) -> ~ In b (map fst (c_mult (set_c_ballots i [] [])))).
+  { intros b _ []. }
+  rewrite (ballot_loop_lines (c_mult i) w (sorted_prefs i) Hw _ NES NDS FR).
+  reflexivity.
+Qed.
+
+(* header_only=True on the same lines: everything but the ballots (used by C10) *)
+Theorem header_only_lines w i : forallb is_space w = true -> wf_cat i ->
+  cat_parse false true (meta0 (lit "cat")) (map (fun l => l ++ w) (file_lines i)) = Ok (set_c_ballots i [] []).
+Proof.
+  intros Hw W.
+  unfold cat_parse. change (teqb (data_type (meta0 (lit "cat"))) (lit "cat")) with true. cbv iota.
+  unfold cat_parse_body. fold start_inst. now rewrite header_loop_file by assumption.
 Qed.
 
 (* C08_roundtrip: parse_file (readlines) of the written file gives back the instance, ballots in file order *)
